@@ -194,7 +194,7 @@ func GenRoute(c *fw.Ctx) *wm.World {
 	ports := sps[c.Choose(len(sps), "service ports")]
 	pol := fw.Pick(c, policies, "policies")
 	rt := fw.Pick(c, rtargets, "route targetPort")
-	to := fw.Pick(c, [][]string{{"s"}, {"missing", "s"}, {"s", "sb"}}, "route to / alternateBackends")
+	to := fw.Pick(c, [][]string{{"s"}, {"missing", "s"}, {"s", "sb"}, {"Deployment/s", "sb"}}, "route to / alternateBackends (the last one: to of another kind than Service, ignored)")
 	rns := fw.Pick(c, []string{"ns1", "ns2"}, "route namespace")
 	w := base(cp, pol)
 	w.Svcs = []wm.Svc{{NS: "ns1", Name: "s", Sel: sel, Ports: ports}, {NS: "ns1", Name: "sb", Sel: map[string]string{"app": "b"}, Ports: []wm.SvcPort{{Name: "p1", Port: 8080}}}, {NS: "ns2", Name: "s", Sel: map[string]string{"app": "a"}, Ports: []wm.SvcPort{{Name: "p1", Port: 80}}}}
